@@ -459,7 +459,7 @@ PROPS = {
             {"engine": "E2", "module": "ifdata", "harness": "h_c19_spec2_text_roundtrip", "functions": ["<generated> WSpec::store_to_ifdata", "<generated> WSPEC_TEXT", "A2lFile::write_to_string", "load_from_string", "<generated> WSpec::load_from_ifdata"],
              "bound": "4 presets of WSpec with symbolic 8-bit scalars / string char; strict reload; load, store, write reproduces the text", "timeout": 400, "must_cover": ["c19_spec2_text_roundtrip_end"], "max_steps": 4000000},
             {"engine": "E2", "module": "ifdata", "harness": "h_c19_parsed_roundtrip", "functions": ["load_from_string", "<generated> VSpec::load_from_ifdata", "<generated> VSpec::store_to_ifdata", "A2lFile::write_to_string"],
-             "bound": "16 instance texts (decimal/hex notation, every member kind, empty and populated blocks, members out of definition order, tags reused with other content)", "timeout": 300, "must_cover": ["c19_parsed_roundtrip_end"], "max_steps": 4000000},
+             "bound": "18 instance texts (decimal/hex notation, every member kind, empty and populated blocks, members out of definition order, tags reused with other content)", "timeout": 300, "must_cover": ["c19_parsed_roundtrip_end"], "max_steps": 4000000},
             {"engine": "E2", "module": "ifdata", "harness": "h_c19_shape_mismatch", "functions": ["load_from_string", "<generated> VSpec::load_from_ifdata", "<generated> *::parse"],
              "bound": "12 mismatching in-file definitions with a conforming instance each: load_from_ifdata returns None, no panic", "timeout": 300, "must_cover": ["c19_shape_mismatch_end"], "max_steps": 4000000},
             {"engine": "E2", "module": "ifdata", "harness": "h_c19_text_constant_parses", "functions": ["a2ml::parse_a2ml", "<generated> VSPEC_TEXT"],
@@ -471,12 +471,12 @@ PROPS = {
         "grammar_deviations": True,
         "trusted": T_STD + ["/verif/reference/a2l_grammar_dsl.txt: frozen copy of the specification DSL (body of a2l_specification! in specification_orig.rs at the pinned commit) as the reference grammar",
                             "/verif/vf/dslgen.py: instance and deviation generator over that DSL"],
-        "assumptions": ["one document per (parent, element) pair of the reference grammar (273 pairs covering 203 of 205 elements) in its specified form (at version 1.71 and exactly at the lower version bound of every gated element / enum value: 365), and one per single deviation: last parameter missing (208), optional element twice (198), wrong block form (273), unknown enum value (59), element newer than the declared version (39), enum value newer than the declared version (61), deprecated element (2), required element missing (1): 1329 documents, each loaded strict and non-strict",
+        "assumptions": ["one document per (parent, element) pair of the reference grammar (273 pairs covering 203 of 205 elements) in its specified form (at version 1.71 and exactly at the lower version bound of every gated element / enum value: 365), and one per single deviation: last parameter missing (208), optional element twice (198), wrong block form (273), unknown enum value (59), element newer than the declared version (39), enum value newer than the declared version (61), deprecated element (2), required element missing (1): 1349 documents, each loaded strict and non-strict",
                         "values are one representative per parameter type (the symbolic value space of parameters is C02's subject); the deviation is at the last parameter / the first enum parameter; elements with an open-ended identifier list accept any error class for structural deviations (the list swallows what follows)",
                         "A2ML and IF_DATA content are outside (C18/C19)"],
         "jobs": [
             {"engine": "E2", "module": "lib", "harness": "h_grammar_%d" % c, "functions": ["load_from_string", "specification::*::parse of every element of the reference grammar", "parser::ParserState::{require_block,require_keyword,handle_multiplicity_error,check_block_version_lower,check_block_version_upper,check_enumitem_version_lower,get_integer,get_string,get_identifier,get_double}", "A2lFile::write_to_string"],
-             "bound": "documents k = %d (mod 4) of the 1329 generated documents, strict and non-strict" % c, "timeout": 900, "extra_modules": ["tokenizer"], "max_steps": 6000000, "validate": 40,
+             "bound": "documents k = %d (mod 4) of the 1349 generated documents, strict and non-strict" % c, "timeout": 900, "extra_modules": ["tokenizer"], "max_steps": 6000000, "validate": 40,
              "must_cover": ["deviation documents are in place"]}
             for c in (0, 1, 2, 3)
         ] + [
@@ -489,7 +489,7 @@ PROPS = {
              "bound": "one document with every element of the grammar valid at version 1.71 (all _X.._5 variants side by side), generated from the DSL of the tree under check: strict load without diagnostics, values written back", "timeout": 900, "extra_modules": ["tokenizer"], "max_steps": 300000000,
              "must_cover": ["generated document and fingerprint module are in place"]},
             {"engine": "E2", "module": "lib", "harness": "h_grammar_versions", "functions": ["parser::ParserState::check_block_version_lower", "parser::ParserState::check_block_version_upper", "parser::ParserState::check_enumitem_version_lower", "parser::A2lVersion::new", "parser::ParserState::parse_version", "specification::*::parse of every version-gated element"],
-             "bound": "101 version-gated (parent, element) / enum-value documents x the file version as solver variable over {1.50, 1.51, 1.60, 1.61, 1.70, 1.71} (two symbolic digits)", "timeout": 900, "extra_modules": ["tokenizer"], "max_steps": 6000000, "validate": 40,
+             "bound": "111 version-gated (parent, element) / enum-value documents x the file version as solver variable over {1.50, 1.51, 1.60, 1.61, 1.70, 1.71} (two symbolic digits)", "timeout": 900, "extra_modules": ["tokenizer"], "max_steps": 6000000, "validate": 40,
              "must_cover": ["version-open documents are in place"]},
         ],
     },
@@ -525,7 +525,7 @@ PROPS = {
             for c in (1, 2, 3, 4, 5, 6, 7)
         ] + [
             {"engine": "E2", "module": "lib", "harness": "h_c20_versions", "quick": False, "functions": ["specification::*::parse of every version-gated element", "parser::ParserState::check_block_version_lower", "parser::ParserState::check_enumitem_version_lower"],
-             "bound": "101 version-gated documents of the reference grammar x file version symbolic over the six ASAP2 versions x strict / non-strict, observed on both builds", "timeout": 900, "extra_modules": ["tokenizer"], "max_steps": 6000000, "validate": 10,
+             "bound": "111 version-gated documents of the reference grammar x file version symbolic over the six ASAP2 versions x strict / non-strict, observed on both builds", "timeout": 900, "extra_modules": ["tokenizer"], "max_steps": 6000000, "validate": 10,
              "must_cover": ["version-open documents are in place"]},
             {"engine": "E2", "module": "lib", "harness": "h_c20_module_ops", "functions": ["A2lFile::check", "A2lFile::merge_modules", "A2lFile::cleanup", "generated PartialEq / A2lObjectName impls"],
              "bound": "merge template merged with a renamed copy of itself, then cleanup (1 concrete path)", "timeout": 600, "extra_modules": ["tokenizer"], "max_steps": 80000000, "validate": 1},
@@ -539,6 +539,9 @@ PROPS = {
         "jobs": [
             {"engine": "E2", "module": "lib", "harness": "h_ifdata_definitions", "msg_prefix": "C18", "functions": ["load_from_string", "tokenizer::handle_a2ml", "a2ml::parse_a2ml", "ifdata::parse_ifdata", "ifdata::parse_ifdata_from_spec", "ifdata::parse_ifdata_item", "ifdata::parse_ifdata_taggedstruct", "ifdata::parse_unknown_ifdata_start", "a2ml::GenericIfData::write", "A2lFile::ifdata_cleanup"],
              "bound": "8 definitions x {conforming, deviating} x {LF, CRLF} (deviations incl. two members in a taggedunion; signed scalars in hex with the sign bit set)", "timeout": 400, "extra_modules": ["tokenizer"], "validate": 20},
+            {"engine": "E2", "module": "lib", "harness": "h_ifdata_cleanup_all_sites", "functions": ["A2lFile::ifdata_cleanup", "ifdata::remove_unknown_ifdata", "load_from_string", "A2lFile::write_to_string"],
+             "bound": "the doubled every-element document (IF_DATA at every site of the grammar where it may stand, conforming and non-conforming blocks alternating): after ifdata_cleanup exactly the valid blocks remain", "timeout": 900, "extra_modules": ["tokenizer"], "max_steps": 1500000000,
+             "must_cover": ["generated document and fingerprint module are in place", "IF_DATA of both kinds at many sites"]},
             {"engine": "E2", "module": "lib", "harness": "h_ifdata_builtin_spec", "functions": ["load_from_string (a2ml_spec argument)", "a2ml::parse_a2ml", "ifdata::parse_ifdata", "ifdata::parse_ifdata_from_spec", "A2lFile::ifdata_cleanup"],
              "bound": "8 definitions supplied as built-in specification x {conforming, deviating} instance; an invalid built-in specification is an error", "timeout": 400, "extra_modules": ["tokenizer"], "must_cover": ["ifdata_builtin_spec_end"], "validate": 16},
             {"engine": "E2", "module": "lib", "harness": "h_ifdata_empty_sequence", "functions": ["ifdata::parse_ifdata_item"],
